@@ -104,6 +104,8 @@ def canon_result(r, depth=0):
         return ("NotPassed",)
     if r is None or isinstance(r, (bool, str)):
         return (type(r).__name__, r)
+    if isinstance(r, int) and r.bit_length() > 4000:
+        return ("int", hex(r))  # repr() of such an integer is refused by the interpreter
     if isinstance(r, (int, float)):
         return (type(r).__name__, repr(r))
     if isinstance(r, list):
@@ -141,6 +143,8 @@ def snapshot(x, seen=None, depth=0):
         return "NotPassed"
     if x is None or isinstance(x, (bool, str)):
         return (type(x).__name__, x)
+    if isinstance(x, int) and x.bit_length() > 4000:
+        return ("int", hex(x))  # repr() of such an integer is refused by the interpreter
     if isinstance(x, (int, float)):
         return (type(x).__name__, repr(x))
     oid = id(x)
